@@ -260,3 +260,25 @@ def judge_wall(chk, label, db, work, model_path, names, wobs, policy, mode):
                           {'zone': n, 'db': db, 'wall_seconds_from_2000': w, 'got': f[4:], 'allowed': v['want']})
     chk.add(states=tres.distinct, transitions=tres.generated, traces_validated_against_impl=len(names))
     return nwin
+
+
+def check_configurations(chk, exe, db, label, grid=86400 * 3 + 3600 * 7):
+    """manager-created time zones (2 cache slots, 5 zones in rotation) and direct time zones sharing one processor must answer
+    like a time zone with its own processor (whose sweep TzSem.tla judges), at every grid instant of 2000..2049"""
+    names = list_zones(exe, db)
+    n = len(names)
+
+    def one(rng):
+        rc, out, err, _ = common.run_cmd([exe, 'cfgscan', db, str(rng[0]), str(rng[1]), str(grid), str(T0), str(T1)], timeout=3000)
+        return rng, rc, [json.loads(l) for l in out.splitlines() if l.startswith('{')], err[-600:]
+    nq = 0
+    for rng, rc, recs, err in common.tmap(one, [(i, min(i + 5, n)) for i in range(0, n, 5)]):
+        if rc != 0 or not recs:
+            chk.violation('%s:configurations:crash:%d-%d' % ((label,) + rng), 'configuration sweep crashed rc=%s %s' % (rc, err), {'range': list(rng)})
+            continue
+        r = recs[0]
+        nq += r['nq']
+        for b in r['bad']:
+            chk.violation('%s:%s:via-%s' % (label, b['zone'], b['via']), '%s asked through a %s at t=%d answers (offset, dst, abbrev)=%s, a time zone with its own processor %s (%d such answers in zones %s)' % (
+                b['zone'], b['via'], b['t'], b['got'], b['want'], r['nbad'], [names[k] for k in range(rng[0], rng[1])]), b)
+    chk.add(**{'configuration_queries_' + label: nq})
